@@ -388,7 +388,7 @@ pub fn load_known_findings() -> Vec<KnownFinding> {
 // ---------------------------------------------------------------------------------------
 // worker
 
-#[derive(Serialize, Deserialize, Default, Debug)]
+#[derive(Serialize, Deserialize, Default, Debug, Clone)]
 pub struct SubStats {
     pub evaluations: u64,
     pub nontrivial: u64,
@@ -401,6 +401,9 @@ pub struct SubStats {
 #[derive(Serialize, Deserialize, Default, Debug)]
 pub struct WorkerResult {
     pub subs: BTreeMap<String, SubStats>,
+    /// checkpoint only: name of the sub check in progress and the next case index of this worker
+    #[serde(default)]
+    pub resume_at: Option<(String, u64)>,
 }
 
 pub struct WorkerArgs {
@@ -415,17 +418,84 @@ pub struct WorkerArgs {
 
 pub const MAX_FAILURES_PER_SUB: usize = 3;
 
+/// exit code of a worker whose current case did not end within VERIF_HANG_S seconds
+pub const EXIT_HANG: i32 = 97;
+pub fn hang_secs() -> u64 {
+    std::env::var("VERIF_HANG_S").ok().and_then(|s| s.parse().ok()).unwrap_or(600)
+}
+
 pub fn worker_main(def: PropertyDef, a: &WorkerArgs) {
     install_panic_hook();
+    // C03 ("no attempt to allocate memory unrelated to the input size"): an address space limit is the backstop
+    // behind the allocation watcher (an allocation beyond it aborts the worker; the supervisor reports the case)
+    if def.id == "C03" {
+        let lim = libc::rlimit { rlim_cur: 24 << 30, rlim_max: 24 << 30 };
+        unsafe {
+            libc::setrlimit(libc::RLIMIT_AS, &lim);
+        }
+    }
     let mut res = WorkerResult::default();
     let marker_path = a.out.with_extension("cur");
     let mut marker = std::fs::File::create(&marker_path).unwrap();
+    // watchdog: a case (including its shrinking, which has its own budget) that runs longer than VERIF_HANG_S hangs
+    let case_started = std::sync::Arc::new(std::sync::atomic::AtomicU64::new(0));
+    {
+        let cs = case_started.clone();
+        let t0 = std::time::Instant::now();
+        let limit = hang_secs();
+        std::thread::spawn(move || loop {
+            std::thread::sleep(std::time::Duration::from_millis(500));
+            let started = cs.load(std::sync::atomic::Ordering::Relaxed);
+            if started != 0 && t0.elapsed().as_secs() + 1 > started + limit {
+                eprintln!("watchdog: current case runs for more than {} s", limit);
+                std::process::exit(EXIT_HANG);
+            }
+        });
+    }
+    let t_worker = std::time::Instant::now();
+    // a restarted worker (its predecessor crashed or hung in a case that is now on the skip list) continues from
+    // the predecessor's last checkpoint instead of repeating the whole shard
+    let part_path = a.out.with_extension("part");
+    let mut resume: Option<(String, u64)> = None;
+    if std::env::var("VERIF_RESUME").is_ok() {
+        if let Some(r) = std::fs::read(&part_path).ok().and_then(|b| serde_json::from_slice::<WorkerResult>(&b).ok()) {
+            resume = r.resume_at.clone();
+            res = r;
+            res.resume_at = None;
+        }
+    }
+    let mut last_checkpoint = std::time::Instant::now();
     for s in &def.subs {
         let mut st = SubStats::default();
         let mut hashes: HashSet<u64> = HashSet::new();
         let n = s.cases();
         let mut i = a.widx;
+        if let Some((rs, ri)) = &resume {
+            if res.subs.contains_key(s.name()) && rs != s.name() {
+                continue; // finished before the checkpoint
+            }
+            if rs == s.name() {
+                st = res.subs.remove(s.name()).unwrap_or_default();
+                hashes = st.nontrivial_hashes.drain(..).collect();
+                i = *ri;
+                resume = None;
+            }
+        }
         while i < n {
+            if last_checkpoint.elapsed().as_millis() > 1500 {
+                let mut snap = WorkerResult { subs: BTreeMap::new(), resume_at: Some((s.name().to_string(), i)) };
+                for (k, v) in &res.subs {
+                    snap.subs.insert(k.clone(), v.clone());
+                }
+                let mut cur = st.clone();
+                cur.nontrivial_hashes = hashes.iter().copied().collect();
+                snap.subs.insert(s.name().to_string(), cur);
+                let tmp = part_path.with_extension("part.tmp");
+                if std::fs::write(&tmp, serde_json::to_vec(&snap).unwrap()).is_ok() {
+                    let _ = std::fs::rename(&tmp, &part_path);
+                }
+                last_checkpoint = std::time::Instant::now();
+            }
             if a.skip.contains(&(s.name().to_string(), i)) {
                 i += a.wcount;
                 continue;
@@ -435,6 +505,7 @@ pub fn worker_main(def: PropertyDef, a: &WorkerArgs) {
                 let _ = marker.seek(SeekFrom::Start(0));
                 let _ = marker.write_all(format!("{} {}\n{:60}", s.name(), i, "").as_bytes());
             }
+            case_started.store(t_worker.elapsed().as_secs() + 1, std::sync::atomic::Ordering::Relaxed);
             let seed32 = case_seed(a.seed, &a.prop, s.name(), i);
             let want_sample = st.samples.len() < 2;
             let out = s.run_case(&seed32, want_sample);
@@ -566,6 +637,7 @@ pub fn supervise(
     let spawn = |idx: usize, skip: &[(String, u64)]| -> (std::process::Child, PathBuf) {
         let out = wd.join(format!("w{}.json", idx));
         let _ = std::fs::remove_file(&out);
+        let resume = !skip.is_empty();
         let errf = std::fs::File::create(wd.join(format!("w{}.err", idx))).unwrap();
         let skip_s: Vec<String> = skip.iter().map(|(s, i)| format!("{}:{}", s, i)).collect();
         let child = std::process::Command::new(self_exe())
@@ -581,6 +653,7 @@ pub fn supervise(
             .env("TZ", "UTC")
             .env("TMPDIR", tmp_dir())
             .env("VERIF_RUN_DIR", &wd)
+            .envs(if resume { vec![("VERIF_RESUME", "1")] } else { vec![] })
             .stdin(std::process::Stdio::null())
             .stdout(std::process::Stdio::null())
             .stderr(errf)
@@ -606,20 +679,29 @@ pub fn supervise(
         Tier::Thorough => 6 * 3600,
     });
     let t_start = std::time::Instant::now();
-    while let Some(mut w) = ws.pop() {
-        let status = loop {
-            match w.child.try_wait().expect("wait failed") {
-                Some(st) => break Some(st),
-                None => {
-                    if t_start.elapsed().as_secs() > deadline_s {
-                        let _ = w.child.kill();
-                        let _ = w.child.wait();
-                        break None;
-                    }
-                    std::thread::sleep(std::time::Duration::from_millis(20));
-                }
+    // all workers are watched at once (a crashed or hung one is restarted while the others still run)
+    while !ws.is_empty() {
+        let mut exited: Option<(usize, Option<std::process::ExitStatus>)> = None;
+        for (k, w) in ws.iter_mut().enumerate() {
+            if let Some(st) = w.child.try_wait().expect("wait failed") {
+                exited = Some((k, Some(st)));
+                break;
+            }
+        }
+        if exited.is_none() && t_start.elapsed().as_secs() > deadline_s {
+            let w = &mut ws[0];
+            let _ = w.child.kill();
+            let _ = w.child.wait();
+            exited = Some((0, None));
+        }
+        let (k, status) = match exited {
+            Some(x) => x,
+            None => {
+                std::thread::sleep(std::time::Duration::from_millis(20));
+                continue;
             }
         };
+        let mut w = ws.remove(k);
         let status = match status {
             Some(s) => s,
             None => {
@@ -652,6 +734,10 @@ pub fn supervise(
             lines.into_iter().rev().collect::<Vec<_>>().join(" / ")
         };
         match sidx {
+            Some(_) if !sname.is_empty() && summary.violations.len() >= 6 => {
+                // the verdict is settled; the rest of this shard is not explored
+                summary.infra_errors.push(format!("worker {} died/hung again at {} ({}); shard abandoned after 6 reported cases", w.idx, sname, status));
+            }
             Some(i) if !sname.is_empty() && w.restarts < 8 => {
                 let is_oom_kill = {
                     use std::os::unix::process::ExitStatusExt;
@@ -662,6 +748,24 @@ pub fn supervise(
                         "worker {} killed (SIGKILL) at {} {} - treated as infrastructure",
                         w.idx, sname, i
                     ));
+                } else if status.code() == Some(EXIT_HANG) {
+                    // the case did not end. Termination is part of the statement of C03 only; elsewhere the oracles
+                    // bound their own waits and a stuck case is an inconclusive run (exit 2)
+                    let rf = ReplayFile {
+                        property: prop.to_string(),
+                        subcheck: sname.clone(),
+                        seed,
+                        index: i,
+                        message: format!("the case did not end within {} s", hang_secs()),
+                        case: generate(&sname, i),
+                        finding: None,
+                    };
+                    let p = write_replay(&rf);
+                    if prop == "C03" {
+                        summary.violations.push((rf.message.clone(), p));
+                    } else {
+                        summary.infra_errors.push(format!("watchdog: {} case {} of {} did not end within {} s (inconclusive; kept as {})", prop, i, sname, hang_secs(), p.display()));
+                    }
                 } else {
                     let rf = ReplayFile {
                         property: prop.to_string(),
